@@ -14,7 +14,9 @@ A *Src schema* is a plain python dict (mirrored by the Gallina inductive of coq/
             | {"k": "array",  "of": TYPE} | {"k": "map", "of": TYPE}            (string keys)
             | {"k": "ref",    "name": "Def"}
             | {"k": "struct", "fields": [ {"name": "f", "t": TYPE, "req": bool, "null": bool}, ... ]}
-            | {"k": "union",  "of": [TYPE...]}          union of scalars (bool/int/float/string, arrays of them)
+            | {"k": "union",  "of": [TYPE...]}          union of scalars (bool/int/float/string, arrays of them);
+                                                        on a nullable field the null is one more branch of the union
+                                                        ("nullform": "typearray" | "oneof" = how JSON Schema writes it)
             | {"k": "dunion", "of": ["DefA", "DefB"], "disc": "field"}  discriminated union of struct refs
 
 All randomness comes from the random.Random passed in.  Documents are python values: dict /
@@ -42,6 +44,12 @@ INT_RANGE = {
     "int64": (-2 ** 63, 2 ** 63 - 1), "uint8": (0, 2 ** 8 - 1), "uint16": (0, 2 ** 16 - 1),
     "uint32": (0, 2 ** 32 - 1), "uint64": (0, 2 ** 64 - 1),
 }
+# shapes that are OFF unless a check asks for them (SrcGen(..., features=ALL_FEATURES + EXTRA_FEATURES)):
+#   case_twins      two properties of one object whose names differ only in letter case, exactly one required
+#   nullable_union  `A | B | null` unions of scalars (the null is a branch: cog names the type AOrBOrNull)
+#   repeat_union    the same union of scalars at several positions of a schema (one generated Go type reused);
+#                   with nullable_union also "twins": the same nullable union in >= 2 required positions
+EXTRA_FEATURES = ("case_twins", "nullable_union", "repeat_union")
 ALL_FEATURES = ("bool", "int", "float", "string", "datetime", "any", "const", "enum", "array", "map", "ref",
                 "struct", "union", "dunion", "recursive", "nullable", "bounds", "widths", "alias")
 
@@ -326,6 +334,19 @@ class SrcGen:
 
     # --- composite types
     def union(self):
+        """a union of scalars; the same branch list (=> the same generated Go type name) recurs: half of
+        the time an earlier union of this schema is reused"""
+        import copy
+        if not self.has("repeat_union"):
+            return self._fresh_union()
+        pool = self.__dict__.setdefault("union_pool", [])
+        if pool and self.rng.random() < 0.5:
+            return copy.deepcopy(self.rng.choice(pool))
+        u = self._fresh_union()
+        pool.append(copy.deepcopy(u))
+        return u
+
+    def _fresh_union(self):
         r = self.rng
         kinds = r.sample(["string", "int", "bool", "float"], r.randint(2, 3))
         if "int" in kinds and "float" in kinds:
@@ -371,7 +392,11 @@ class SrcGen:
             pass
         t = self.scalar() if simple else self.type(depth)
         req = r.random() < 0.55
-        null = self.has("nullable") and r.random() < 0.25 and t["k"] not in ("any", "const", "dunion", "union")
+        null = self.has("nullable") and r.random() < 0.25 and t["k"] not in (
+            ("any", "const", "dunion") if self.has("nullable_union") else ("any", "const", "dunion", "union"))
+        if null and t["k"] == "union":
+            # `T1 | T2 | null`: how the null branch is written (JSON Schema: a type array or a oneOf branch)
+            t["nullform"] = r.choice(["typearray", "oneof"]) if all(b["k"] != "array" for b in t["of"]) else "oneof"
         return {"name": name, "t": t, "req": req, "null": null}
 
     def struct(self, depth):
@@ -380,6 +405,27 @@ class SrcGen:
         fields = []
         for _ in range(n):
             fields.append(self.field(depth + 1, {f["name"] for f in fields}))
+        taken = {f["name"].lower() for f in fields}
+        if self.has("nullable_union") and self.has("repeat_union") and self.has("union") and self.has("nullable") \
+                and r.random() < (0.3 if depth == 0 else 0.12):
+            # the SAME nullable union of scalars at several positions (one generated Go type, reached again
+            # through the "already generated" path of DisjunctionToType), at least two of them required
+            import copy
+            u = self.union()
+            u.pop("nullform", None)
+            form = r.choice(["typearray", "oneof"]) if all(b["k"] != "array" for b in u["of"]) else "oneof"
+            names = [n_ for n_ in ("ua", "ub", "uc", "ud") if n_ not in taken][:r.choice([2, 2, 3])]
+            for i, n_ in enumerate(names):
+                fields.append({"name": n_, "t": dict(copy.deepcopy(u), nullform=form), "req": i < 2 or r.random() < 0.5,
+                               "null": i < 2 or r.random() < 0.5})
+                taken.add(n_)
+        if self.has("case_twins") and r.random() < (0.22 if depth == 0 else 0.1):
+            # two properties whose names differ only in letter case, exactly one of them required
+            a, b = r.choice([("userName", "username"), ("ID", "id"), ("fooBar", "foobar"), ("ab", "aB"), ("keyId", "keyid")])
+            if a.lower() not in taken:
+                first_req = r.random() < 0.5
+                fields.append({"name": a, "t": self.scalar(), "req": first_req, "null": False})
+                fields.append({"name": b, "t": self.scalar(), "req": not first_req, "null": False})
         fields.sort(key=lambda f: f["name"])
         return {"k": "struct", "fields": fields}
 
@@ -467,6 +513,7 @@ class SrcGen:
 
     def schema(self, pkg):
         self.defs, self.names, self.struct_defs = [], {"Root"}, []
+        self.union_pool = []
         r = self.rng
         self.struct_defs.append("Root") if self.has("recursive") and r.random() < 0.3 else None
         root = self.struct(0)
@@ -662,6 +709,13 @@ def _js_type(t, refprefix, openapi=False, closed=False):
             if f.get("null"):
                 if openapi:
                     ft = dict(ft, nullable=True)
+                elif f["t"]["k"] == "union":
+                    # a flat union with a null branch (what cog names <A>Or<B>OrNull)
+                    if f["t"].get("nullform") == "typearray":
+                        ft = {"type": [_JS_SCALAR[b["k"]] for b in f["t"]["of"]] + ["null"]}
+                    else:
+                        word = [w for w in ("oneOf", "anyOf") if w in ft][0]
+                        ft = {word: ft[word] + [{"type": "null"}]}
                 else:
                     ft = {"oneOf": [ft, {"type": "null"}]}
             props[f["name"]] = ft
@@ -683,6 +737,9 @@ def _js_type(t, refprefix, openapi=False, closed=False):
             o["discriminator"] = {"propertyName": t["disc"]}
         return o
     raise ValueError(k)
+
+
+_JS_SCALAR = {"string": "string", "bool": "boolean", "int": "integer", "float": "number"}
 
 
 def _bounds(o, t, openapi, conv):
@@ -791,7 +848,10 @@ def _cue_type(t, ind):
             ft = _cue_type(f["t"], ind + 1)
             attr = _cue_attr(f["t"])
             if f.get("null"):
-                ft = "(" + ft + ") | null" if (" | " in ft or " & " in ft) else ft + " | null"
+                if f["t"]["k"] == "union":
+                    ft = ft + " | null"
+                else:
+                    ft = "(" + ft + ") | null" if (" | " in ft or " & " in ft) else ft + " | null"
             lines.append("%s\t%s%s: %s%s" % (pad, f["name"], "" if f["req"] else "?", ft, attr))
         return "{\n" + "\n".join(lines) + "\n" + pad + "}"
     if k == "union":
@@ -982,7 +1042,7 @@ class DocGen:
                     p = 0.55 if depth < self.max_depth else 0.0
                     if r.random() >= p:
                         continue
-                if f.get("null") and r.random() < 0.3:
+                if f.get("null") and r.random() < (0.45 if f["t"]["k"] == "union" else 0.3):
                     out[f["name"]] = None
                     continue
                 if not f["req"] and r.random() < 0.07:
